@@ -581,12 +581,15 @@ func genBlockSchema(r *rand.Rand, depth int, o *GenOpts) *schema.BlockSchema {
 func genFunctions(r *rand.Rand) map[string]schema.FunctionSignature {
 	p := func(n string, t cty.Type) function.Parameter { return function.Parameter{Name: n, Type: t} }
 	vp := p("rest", cty.String)
+	// parameter lists cut from one shared list with spare capacity, as a generated function table has:
+	// fv's list ends where fv2's second parameter lives
+	pool := append(make([]function.Parameter, 0, 8), p("sep", cty.String), p("second", cty.Number))
 	return map[string]schema.FunctionSignature{
+		"fv2":            {ReturnType: cty.String, Params: pool[:2]},
 		"f0":             {ReturnType: cty.String, Description: "no params"},
 		"f1":             {ReturnType: cty.String, Params: []function.Parameter{p("s", cty.String)}},
 		"f2":             {ReturnType: cty.Number, Params: []function.Parameter{p("x", cty.Number), p("y", cty.Number)}},
-		// a parameter list built by append, as a generated function table has: spare capacity behind the last element
-		"fv":             {ReturnType: cty.List(cty.String), Params: append(make([]function.Parameter, 0, 8), p("sep", cty.String)), VarParam: &vp},
+		"fv":             {ReturnType: cty.List(cty.String), Params: pool[:1], VarParam: &vp},
 		"fonlyv":         {ReturnType: cty.Bool, VarParam: &vp},
 		"fdyn":           {ReturnType: cty.DynamicPseudoType, Params: []function.Parameter{p("v", cty.DynamicPseudoType)}},
 		"provider::a::b": {ReturnType: cty.String, Params: []function.Parameter{p("s", cty.String)}},
@@ -1170,6 +1173,39 @@ func histories(r *rand.Rand, src string, max int) []string {
 }
 
 // cursor positions: token boundaries +-1 plus a random sample (quick) or all offsets (thorough)
+// callOffsets: deterministic cursor positions inside the argument lists of calls to the variadic functions
+// of genFunctions (right behind the opening parenthesis and behind the first comma), at most three calls
+func callOffsets(src []byte) []int {
+	var out []int
+	text := string(src)
+	n := 0
+	for _, name := range []string{"fv(", "fonlyv("} {
+		from := 0
+		for n < 3 {
+			i := strings.Index(text[from:], name)
+			if i < 0 {
+				break
+			}
+			at := from + i + len(name)
+			from = at
+			if at-len(name) > 0 {
+				if c := text[at-len(name)-1]; c == '_' || (c >= 'a' && c <= 'z') || (c >= '0' && c <= '9') || c == ':' {
+					continue
+				}
+			}
+			out = append(out, at)
+			n++
+			for j := at; j < len(text) && text[j] != '\n'; j++ {
+				if text[j] == ',' {
+					out = append(out, j+1)
+					break
+				}
+			}
+		}
+	}
+	return out
+}
+
 func cursorOffsets(r *rand.Rand, src []byte, all bool, sample int) []int {
 	n := len(src)
 	if all {
